@@ -241,7 +241,7 @@ func TestC24(t *testing.T) {
 		"non-trivial = at least 8 operations and at least one listing that returned two or more entries; distinct by the operation list")
 	cs := vh.NewCases(e, "From V Require Import model.M_C24.\nOpen Scope N_scope.", "case", "check_case", 100)
 	ctx := context.Background()
-	n := e.Pick(700, 12000)
+	n := e.Pick(700, 5000)
 	corp := corpus()
 	names := []string{"/idx", "/pins/index/cidRindex", "/i", "/data/nameindex"}
 	for i := 0; i < n; i++ {
